@@ -422,8 +422,10 @@ def vector_goal_cases(ctx):
     """a vector goal stands for its scalar goals: same optimal values per priority, with and without
     scale_by_problem_size"""
     from . import c17
-    for _ in range(ctx.n(3, 80)):
-        desc, make = c17.vector_pair(ctx.rng)
+    import random
+    for i in range(ctx.n(3, 80)):
+        # the first two pairs do not depend on the run's random stream: scale_by_problem_size on
+        desc, make = c17.vector_pair(random.Random(31 + 3 * i), True) if i < 2 else c17.vector_pair(ctx.rng)
         outs = []
         for flag in (True, False):
             P, rec = make(flag)
